@@ -297,6 +297,33 @@ reg("PairTree", Pair[Tree, List[Tree]], [{"first": {"v": 1}, "second": [{"v": 2,
     [lambda: Pair(Tree(1), [Tree(2, Tree(3))])], "Tree")
 
 
+# --------------------------------------------------------------- generic inheritance
+
+
+@dataclass
+class GBase(Generic[T]):
+    x: T
+    xs: List[T] = field(default_factory=list)
+
+
+@dataclass
+class GChild(GBase[int]):
+    y: str = ""
+
+
+@dataclass
+class GGrand(GChild):
+    z: Optional["GGrand"] = None
+
+
+reg("GChild", GChild, [{"x": 1, "xs": [2], "y": "s"}, {"x": "oops"}, {"x": 1, "xs": ["no"]}],
+    [lambda: GChild(1, [2], "s")], "GInherit")
+reg("GGrand", GGrand, [{"x": 1, "z": {"x": 2, "z": None}}, {"x": 1, "z": {"x": "bad"}}],
+    [lambda: GGrand(1, [], "s", GGrand(2))], "GInherit")
+reg("GBaseStr", GBase[str], [{"x": "a", "xs": ["b"]}, {"x": 1}], [lambda: GBase("a", ["b"])], "GInherit")
+reg("ListGChild", List[GChild], [[{"x": 1}], [{"x": None}]], [lambda: [GChild(1)]], "GInherit")
+
+
 # --------------------------------------------------------------- conversions
 
 
@@ -678,6 +705,92 @@ reg("Renamed", Renamed, [{"r": {"r": None, "pts": [{"x": 1}]}}, {"r": 1}],
     [lambda: Renamed(Renamed(None, [Point(1)]))], "Renamed")
 
 
+# --------------------------------------------------------------- tagged union, object conversions
+
+
+from apischema.tagged_unions import Tagged, TaggedUnion  # noqa: E402
+from apischema.objects import object_deserialization, object_serialization, ObjectField  # noqa: E402
+
+
+@dataclass
+class TBar:
+    field: str = ""
+
+
+class TFoo(TaggedUnion):
+    bar: Tagged[TBar]
+    baz: Tagged[int]
+    nodes: Tagged[List[Node]]
+
+
+reg("TFoo", TFoo, [{"bar": {"field": "v"}}, {"baz": 1}, {"nodes": [{"v": 1, "children": [{"v": 2}]}]}, {"nope": 1}, {"baz": "x"}],
+    [lambda: TFoo.bar(TBar("v")), lambda: TFoo.baz(3)], "Tagged")
+reg("ListTFoo", List[TFoo], [[{"baz": 1}, {"bar": {}}], [{"baz": None}]], [lambda: [TFoo.baz(1)]], "Tagged")
+
+
+class Db:
+    def __init__(self, ident: int, name: str = "n"):
+        self.ident, self.name = ident, name
+
+    def __eq__(self, o):
+        return isinstance(o, Db) and (o.ident, o.name) == (self.ident, self.name)
+
+    def __repr__(self):
+        return "Db(%r, %r)" % (self.ident, self.name)
+
+
+@callback("db_from_fields")
+def _db_from(ident: int, name: str = "n") -> Db:
+    return Db(ident, name)
+
+
+from apischema.objects import set_object_fields as _set_object_fields  # noqa: E402
+
+_set_object_fields(Db, [ObjectField("ident", int), ObjectField("name", str, required=False, default="n")])
+deserializer(object_deserialization(_db_from, type_name("DbIn")))
+serializer(object_serialization(Db, ["ident", "name"], type_name("DbOut")))
+
+
+@dataclass
+class HasDb:
+    db: Db
+    more: List[Db] = field(default_factory=list)
+    parent: Optional["HasDb"] = None
+
+
+reg("Db", Db, [{"ident": 1, "name": "x"}, {"ident": "x"}, {}], [lambda: Db(1, "x")], "ObjConv")
+reg("HasDb", HasDb, [{"db": {"ident": 1}, "more": [{"ident": 2}], "parent": {"db": {"ident": 3}}}, {"db": {"name": 1}}],
+    [lambda: HasDb(Db(1), [Db(2)], HasDb(Db(3)))], "ObjConv")
+
+
+@dataclass
+class SBase:
+    n: int = 0
+
+    @serialized
+    def base_twice(self) -> int:
+        return self.n * 2
+
+
+@dataclass
+class SMid(SBase):
+    m: int = 1
+
+    @serialized("mid_sum")
+    def _mid_sum(self) -> int:
+        return self.n + self.m
+
+
+@dataclass
+class SLeaf(SMid):
+    kids: List[SBase] = field(default_factory=list)
+
+
+reg("SLeaf", SLeaf, [{"n": 1, "m": 2, "kids": [{"n": 3}]}, {"n": "x"}], [lambda: SLeaf(1, 2, [SBase(3)])], "SHier")
+reg("SMid", SMid, [{"n": 1}], [lambda: SMid(1, 2)], "SHier")
+reg("SBase", SBase, [{"n": 5}], [lambda: SBase(5)], "SHier")
+
+
 # --------------------------------------------------------------- option sets
 
 
@@ -735,7 +848,7 @@ def resolve_opts(name: str, direction: str) -> Dict[str, Any]:
 CALLBACK_NAMES = [
     "opaque_from_int", "opaque_to_int", "foo_from_bar", "foo_to_bar", "lazy_target_conv",
     "lazy_target_ser", "lazy_getter_d", "lazy_getter_s", "hex_to_int", "int_to_hex",
-    "validated_cb", "double_cb", "camel", "prefix_aliaser",
+    "validated_cb", "double_cb", "camel", "prefix_aliaser", "db_from_fields",
 ]
 
 
